@@ -716,6 +716,45 @@ func runLocalRoundOnce(c *Ctx, round int, g c12Cfg, reqs []c12Req, ovrs []*c12Ov
 			}
 			js = append(js, fmt.Sprintf("%d:%s", j.id, strings.Join(am, ",")))
 		}
+		// the hypothesis `Sane c` of the clamping theorems, and the model's own account of which
+		// semaphores exist with which sizes / which amounts a job acquires on them
+		// (Martian.Semaphore.localSizes / localAmounts, Props.C12.normalized_amounts_fit_every_configuration);
+		// here the process semaphore is the hook's fresh one: everything is left for jobs
+		{
+			procs := "-"
+			if sems[3] != nil {
+				procs = strconv.FormatInt(limits[3], 10)
+			}
+			var reqs [][]string
+			for _, j := range jobs {
+				reqs = append(reqs, []string{"C12.cfgsizes", g.String(), procs,
+					fmt.Sprintf("%d,%d,%d,%d", j.amts[0], j.amts[1], j.amts[2], j.amts[3])})
+			}
+			for i, rep := range c.Drv.AskBatch(reqs) {
+				f := strings.Split(rep, "|")
+				if len(f) != 3 {
+					r.violate(Violation{Kind: "correspondence", Key: "C12:local:driver-bad-op", What: "C12.cfgsizes: " + rep, Input: input,
+						Broken: "correspondence C12.cfgsizes"})
+					break
+				}
+				if f[0] == "1" {
+					r.hist("local_cfg_Sane_holds")
+				} else {
+					r.hist("local_cfg_Sane_fails")
+					r.violate(Violation{Kind: "correspondence", Key: "C12:local:cfg-not-sane",
+						What:  "a generated configuration does not satisfy `Sane` (hypothesis of clamp_le_limits / normalized_amounts_fit_every_configuration): the round is not covered by the theorems",
+						Input: input, Broken: "hypothesis Sane of Props.C12.clamp_le_limits"})
+					break
+				}
+				am := js[i][strings.IndexByte(js[i], ':')+1:]
+				if f[1] != strings.Join(sizes, ",") || f[2] != am {
+					r.violate(Violation{Kind: "correspondence", Key: "C12:local:sizes-model-mismatch",
+						What:  fmt.Sprintf("semaphores that exist / amounts acquired on them: real sizes %s amounts %s, model localSizes %s localAmounts %s", strings.Join(sizes, ","), am, f[1], f[2]),
+						Input: input, Broken: "correspondence C12.cfgsizes (localSizes / localAmounts vs setupSemaphores / Enqueue)"})
+					break
+				}
+			}
+		}
 		rep := c.Drv.Ask("C12.sys", strings.Join(sizes, ","), strings.Join(js, ";"))
 		_, ended := readLog(logPath)
 		var real []string
